@@ -30,30 +30,57 @@ def r1(ctx):
         else:
             strs.append((t[0],))
     # member loop: for i in 0..archive.len()
+    import sem
+    locs = Locals(hir)
+    its = [it for it in find_iterations(hir) if any(y is site for y in walk_exprs(it["body"])) and "Range" in render(it["iter"])]
     rng = None
-    for t in gs:
-        if t[0] == "match" and "Range" in render(t[1]) and t[3] == "ForLoopDesugar":
-            for x in walk_exprs(t[1]):
-                if x["k"] == "Struct" and short(x.get("res"), 1) == "Range":
-                    rng = {f["name"]: render(f["e"]) for f in x["fields"]}
-    ok = rng == {"start": "0", "end": "archive.len()"}
+    idx_id = None
+    if its:
+        it = min(its, key=lambda i_: len(list(walk_exprs(i_["body"]))))
+        idx_id = (pat_binders(it["pat"]) or [None])[0]
+        for x in walk_exprs(it["iter"]):
+            if x["k"] == "Struct" and short(x.get("res"), 1) == "Range":
+                rng = {f["name"]: render(locs.chase(f["e"])) for f in x["fields"]}
+    ok = rng is not None and rng.get("start") == "0" and rng.get("end", "").endswith(".len()") and "archive" in rng.get("end", "")
     ctx.obligation(ok)
     if not ok:
         ctx.violation("members/range", ctx.where(VISIT_DIR, site), "the member loop must cover indices 0..archive.len(); found %s" % rng)
     # by_index(i) with the loop variable, file info of that member, passed on
-    locs = Locals(hir)
     bi = [c for c in walk_exprs(hir) if c["k"] == "MCall" and c["m"] == "by_index"]
-    ok = len(bi) == 1 and render(bi[0]["args"][0]) == "i"
+    ok = len(bi) == 1 and idx_id is not None and peel(bi[0]["args"][0]).get("res") == idx_id
     a1 = peel(site["args"][1])
     if a1["k"] == "Call" and a1.get("ctor") and a1["args"]:
         a1 = a1["args"][0]
-    info = render(locs.chase(a1))
-    ok = ok and "to_file_info(&afile)" in info and render(site["args"][0]) == "&entry"
+    info_n = peel(locs.chase(a1))
+    info = render(info_n)
+    conv = [c for c in [info_n] + list(walk_exprs(info_n)) if c["k"] == "Call" and str(c.get("callee", "")).endswith("to_file_info")]
+    member_ok = False
+    if conv and bi:
+        # the converted value is the payload of by_index(i)
+        src = peel(conv[0]["args"][0])
+        for _ in range(6):
+            if src["k"] == "Path" and src.get("rk") == "Local":
+                d = locs.payload_defs.get(src["res"]) or locs.defs.get(src["res"])
+                if d is None:
+                    break
+                src = peel(d, methods=False)
+                while src["k"] == "Match" and src.get("src") == "Normal":     # `match by_index(i) { Ok(m) => m, Err(_) => continue }`
+                    src = peel(src["scrut"], methods=False)
+                continue
+            break
+        member_ok = any(y is bi[0] for y in walk_exprs(src)) or src is bi[0]
+    ok = ok and member_ok and render(site["args"][0]) == "&entry"
     ctx.obligation(ok)
     if not ok:
         ctx.violation("members/identity", ctx.where(VISIT_DIR, site), "member i must be read with by_index(i), converted by to_file_info and checked against the archive's entry: %s" % info)
-    # guards: reporting gate, archives option && zip extension, the three fallible steps as `if let Ok`
-    conds = " | ".join(s[1] for s in strs if s[0] == "if")
+    # guards: reporting gate, archives option && zip extension, the three fallible steps consumed by a pattern
+    conds = " | ".join(guard_text(t) for t in gs if t[0] in ("if", "match"))
+    # `let m = match archive.by_index(i) { Ok(m) => m, Err(_) => continue };` consumes the fallible step by a pattern as well
+    # (a `?` does not: it would end the whole directory listing)
+    for x in walk_exprs(hir):
+        if x["k"] == "Match" and x.get("src") == "Normal" and any("Result::Ok" in render_pat(a_["pat"]) for a_ in x["arms"]) and \
+                any("Result::Err" in render_pat(a_["pat"]) and not any(y["k"] == "Ret" and "Err" in render(y.get("e")) for y in walk_exprs(a_["body"])) for a_ in x["arms"]):
+            conds += " | " + render(x["scrut"])
     need = ["min_depth", "search_archives", "is_zip_archive", "File::open", "read::new", "by_index"]
     missing = [w for w in need if w not in conds]
     ctx.obligation(not missing)
@@ -81,8 +108,13 @@ def r1(ctx):
     for x in walk_exprs(loop):
         if x["k"] in ("Break", "Continue", "Ret") and not x.get("exp"):
             n_exit += 1
-            g = " && ".join(render(t[1]) for t in guards_of(loop, x) if t[0] == "if")
-            ok = ("limit" in g and "found" in g) or "!checked" in g
+            gl = guards_of(loop, x)
+            g = " && ".join(render(t[1]) for t in gl if t[0] == "if")
+            gm = " && ".join(guard_text(t) for t in gl if t[0] == "match")
+            chased = " ".join(render(locs.chase(a_)) for a_ in sum(guard_atoms(gl), []))
+            # LIMIT stop, closed pipe (check_file said stop), or skipping a member that cannot be read (`Err(_) => continue`)
+            ok = ("limit" in g and "found" in g) or "!checked" in g or "check_file" in chased or \
+                (x["k"] == "Continue" and "by_index" in gm and "Err" in gm)
             ctx.obligation(ok)
             if not ok:
                 ctx.violation("members/exit/%s" % g[:50], ctx.where(VISIT_DIR, x), "the member loop is left under `%s`; only LIMIT and a closed pipe may end it" % g)
@@ -95,8 +127,10 @@ def r2(ctx):
     want = {"name": "name", "size": "size", "mode": "unix_mode", "modified": "last_modified"}
     got = {}
     if st:
+        locs = Locals(hir)
         for f in st[0]["fields"]:
-            ms = [c["m"] for c in walk_exprs(f["e"]) if c["k"] == "MCall" and c["m"] not in ("to_string", "clone", "to_owned")]
+            fe_ = locs.chase(peel(f["e"], methods=False))
+            ms = [c["m"] for c in walk_exprs(fe_) if c["k"] == "MCall" and c["m"] not in ("to_string", "clone", "to_owned")]
             got[f["name"]] = ms[-1] if ms else render(f["e"])
     for k, v in want.items():
         ok = got.get(k) == v
